@@ -244,6 +244,10 @@ class OutputReference:
                     break
                 overlap += 1
 
+            if overlap != len(other_loc):
+                # VV: other_loc is not a prefix of this location
+                continue
+
             if overlap > largest_overlap:
                 best = other_loc
                 largest_overlap = overlap
@@ -1612,7 +1616,8 @@ class ScopeStack:
                             try:
                                 producer = self.scopes[tuple(location)]
                                 if isinstance(producer.template, Component) is False:
-                                    continue
+                                    # VV: the reference points to a Workflow, there is no producer Component
+                                    producer = None
                                 break
                             except KeyError:
                                 # VV: This location doesn't map to a component. The OutputReference must be pointing
